@@ -1192,3 +1192,25 @@ mod tests {
         }
     }
 }
+
+/// Add-only accessors used by the external verification harness (feature `verif-hooks`).
+#[cfg(feature = "verif-hooks")]
+pub mod verif_hooks {
+    use std::path::Path;
+
+    pub fn replace_patch_headers(patch_str: &str, from_path: &Path, to_path: &Path) -> String {
+        super::replace_patch_headers(patch_str, from_path, to_path)
+    }
+
+    /// Run `apply_content_edits_with_content` on `path` (which must exist) and return the
+    /// resulting file content.
+    pub fn apply_content_edits(
+        path: &Path,
+        original_content: &str,
+        replacements: &[(String, String, usize, usize)],
+    ) -> anyhow::Result<Vec<u8>> {
+        let mut state = super::ApplyState::new(None)?;
+        super::apply_content_edits_with_content(path, original_content, replacements, &mut state)?;
+        Ok(std::fs::read(path)?)
+    }
+}
